@@ -37,9 +37,10 @@ OPEN_STATEMENTS = [
     'again (rotated_ladder_car_unitary); not proved: that a CAR-preserving substitution is implemented by a unitary on Fock '
     'space (hence equal spectra); '
     'both checked by the Spec oracle (exact) and numpy eigvalsh at 1e-9',
-    'get_interaction_operator / get_quadratic_hamiltonian / get_diagonal_coulomb_hamiltonian: no theorem (they compose '
-    'normal_ordered, property C03, with a scatter loop); soundness and the round trip '
-    'get_fermion_operator(convert(A)) == normal_ordered(A) are covered by correspondence + Spec oracle only',
+    'get_interaction_operator is proved sound (get_interaction_operator_sound: scatter loop on normal-ordered input + '
+    'normal_ordered of C03, lattice coefficients (1/D)Z[i] with tol*D <= 1); get_quadratic_hamiltonian and '
+    'get_diagonal_coulomb_hamiltonian (Hermiticity checks with tolerance, antisymmetrisation halves, V_pq = V_qp = -c/2, '
+    'which need the CAR) have no theorem yet: correspondence + Spec oracle + round-trip check only',
     'get_fermion_operator(MajoranaOperator): proved for the generators (majorana_generator_sound); products and sums use '
     'FermionOperator `*` and the pruning `+=` (exact regime) and are covered by the Spec oracle '
     '(get_majorana_operator(FermionOperator) is proved at full strength: get_majorana_operator_sound)',
